@@ -246,10 +246,13 @@ def r02_3(chk, sg, so, groups, fidx):
     xv = so.ev("expanded_symmetry_list")
     chk.saw(SO, "expanded_symmetry_list")
     adds_inverted = False
-    for e in xv.events:
-        if e.kind == "assign" and e.extra.get("aug") == "Add" and "inverted()" in e.extra["delta"].key():
-            pos = any(pol and c.as_atom() and c.as_atom()[0] == "lt" and c.as_atom()[1] == P.const(0) for c, pol in e.guards)
-            adds_inverted = pos
+    from .generic import list_appends
+    full = [e.value for e in xv.events if e.kind == "assign" and e.name == "full_symops" and e.value.as_atom() and e.value.as_atom()[0] == "obj"]
+    for e in (list_appends(xv, full[0]) if full else []):
+        # full += [x.inverted() for x in full]   /   full.extend(x.inverted() for x in full)
+        comp = e.extra.get("comp")
+        if comp and len(comp) == 1 and comp[0][1].key() == full[0].key() and not comp[0][2] and call_name(e.extra["args"][0].as_atom() or ()) == ".inverted":
+            adds_inverted = any(pol and c.as_atom() and c.as_atom()[0] == "lt" and c.as_atom()[1] == P.const(0) for c, pol in e.guards)
     chk.need(adds_inverted, "expanded_symmetry_list: 'lattice_type > 0 => add inverted copies' not recognised")
     inv = so.ev("SymmetryOperation.inverted")
     chk.need("-self.rotation" in inv.returns[0].value.key() and "-self.translation" in inv.returns[0].value.key(),
@@ -362,11 +365,27 @@ def r02_6(chk, sg, so, groups, fidx):
     chk.ob("R02.6", SO, "expanded_symmetry_list", "the caller's reduced list is not modified beyond the guarded completion by the identity "
            "(the expansion is built in a list of its own)", not extra, fingerprint="reduced-list-unchanged",
            expected="full_symops = [] (a new list)", found=extra)
-    app = [e for e in xv.events if e.kind == "call" and e.target is not None and e.target.key().endswith("full_symops@1>.append") or
-           (e.kind == "call" and e.target is not None and ".append" in e.target.key() and "full_symops" in e.target.key())]
+    from .generic import list_appends
+    full = [e.value for e in xv.events if e.kind == "assign" and e.name == "full_symops" and e.value.as_atom() and e.value.as_atom()[0] == "obj"]
+    chk.need(full, "expanded_symmetry_list: the list of the expansion was not found")
+    app = [e for e in list_appends(xv, full[0]) if not any("lattice_type" in c.key() for c, _ in e.guards)]
     vals = [str(e.extra["args"][0]) for e in app]
+    # contribution 1: the operation itself, once per reduced operation; contribution 2: operation + t for every centring translation t
+    # (an inner loop, or one extend over the translations)
+    okx = len(app) == 2 and len(app[0].loops) == 1 and not app[0].extra.get("comp")
+    if okx:
+        op = app[0].extra["args"][0]
+        second = app[1]
+        inner_iter = second.loops[1].iter if len(second.loops) == 2 and not second.extra.get("comp") else \
+            (second.extra["comp"][0][1] if second.extra.get("comp") and len(second.extra["comp"]) == 1 and not second.extra["comp"][0][2]
+             and len(second.loops) == 1 else None)
+        okx = second.loops[:1] == app[0].loops and inner_iter is not None and "LATTICE_TYPE_TRANSLATIONS" in inner_iter.key()
+        if okx:
+            tr = second.extra["args"][0] - op
+            ta = tr.as_atom()
+            okx = bool(ta and ta[0] == "sub" and ta[1].key() == inner_iter.key())
     chk.ob("R02.6", SO, "expanded_symmetry_list", "each reduced operation contributes itself and one translate per centring translation",
-           len(app) == 2 and all(e.loops for e in app) and len(app[0].loops) == 1 and len(app[1].loops) == 2, fingerprint="expansion", found=vals)
+           okx, fingerprint="expansion", found=vals)
 
 
 def r02_4(chk, so):
@@ -399,11 +418,15 @@ def r02_4(chk, so):
         for a in find_atoms(e.value, lambda a: a[0] == "in" and a[2].key() == kept.key()):
             lhs = a[1]
             form = lhs.key().replace(cand.key(), "s")
-            # translation variable
+            # translation variable: an element of the tabulated translations, taken by a loop index (of a for loop or of a generator
+            # the loop runs over)
             for l in ev.all_loops:
                 if l.kind == "iter" and l.iter is not None and "LATTICE_TYPE_TRANSLATIONS" in l.iter.key():
                     tkey = P.atom(("sub", l.iter, (l.index,))).key()
                     form = form.replace(tkey, "t")
+            for ta in find_atoms(lhs, lambda t: t[0] == "sub" and len(t[2]) == 1 and t[2][0].as_atom() and t[2][0].as_atom()[0] == "lv"
+                                 and "LATTICE_TYPE_TRANSLATIONS" in t[1].key() and not (t[1].as_atom() and t[1].as_atom()[0] == "comp")):
+                form = form.replace(P.atom(ta).key(), "t")
             # guarded by the inversion flag: the membership test is a conjunct of an `and` that also holds `lattice_type > 0`
             # (wherever that conjunction sits in the whole condition)
             guarded = False
